@@ -174,6 +174,9 @@ class WebSocketWriter:
         """Get or create a compressor object for the given compression level."""
         if compress:
             # Do not set self._compress if compressing is for this frame
+            # The peer's inflate window takes in this frame like any other, so
+            # the shared context must not refer back across it: restart it.
+            self._compressobj = None
             return ZLibCompressor(
                 level=ZLibBackend.Z_BEST_SPEED,
                 wbits=-compress,
